@@ -10,6 +10,11 @@ Correspondence streams
              rank 4 (+ the two matrix dims) — implementation vs model, exact equality;
   lie      : cumprod / cummul / cumops (+ in-place variants, LieTensor methods) on the four groups —
              implementation vs model group product in 192-bit arithmetic.
+  mem      : whole-storage comparison: a raw buffer of 2x2 matrices mod p, a random strided view of it
+             (any rank <= 4, permuted / gapped / offset strides, or an expanded stride-0 view for the
+             out-of-place call), `cumops_` / `cumops` along any dim — the *entire* buffer afterwards
+             (and the returned tensor) must equal the model's `scanBuf` / `scanOutBuf`; the element
+             addresses torch uses must equal the model's address map.
 Oracle on the real code (used for the failing-input search): the sequential fold with the same `ops`.
 """
 from __future__ import annotations
@@ -374,6 +379,123 @@ def run_lie(ctx: Ctx, cases):
             ctx.disagree("lie", case, f"fibre {f}: implementation vs model distance {float(d.max()):.3e} > {tol:.3e}")
 
 
+# ----------------------------------------------------------------------------- mem stream
+
+def gen_mem_case(rng, quick=True):
+    rank = rng.randint(1, 4)
+    dim = rng.randrange(rank)
+    Lhi = 40 if rank > 1 else (200 if quick else 600)
+    shape = [rng.choice([1, 2, 3]) for _ in range(rank)]
+    shape[dim] = pick_L(rng, Lhi)
+    inplace = rng.random() < 0.6
+    # layout: a random order of the dims in memory, each with an optional gap factor
+    order = list(range(rank))
+    rng.shuffle(order)
+    strides = [0] * rank
+    run = 1
+    for d in order:
+        strides[d] = run * rng.choice([1, 1, 2, 3])
+        run = strides[d] * shape[d]
+    expand = None
+    if not inplace and rank > 1 and rng.random() < 0.25:    # expanded (overlapping) input: legal for the out-of-place call
+        cand = [d for d in range(rank) if d != dim] if rng.random() < 0.7 else list(range(rank))
+        expand = rng.choice(cand)
+        strides[expand] = 0
+    base = rng.choice([0, 0, 1, 5])
+    tail = rng.choice([0, 2])
+    return {"kind": "mem", "p": rng.choice([2, 7, 251, 65521]), "left": rng.random() < 0.5, "inplace": inplace,
+            "shape": shape, "strides": strides, "dim": dim, "base": base, "tail": tail, "negdim": rng.random() < 0.3,
+            "data_seed": rng.randrange(1 << 30)}
+
+
+def mem_setup(case):
+    shape, strides, base = case["shape"], case["strides"], case["base"]
+    top = base + sum(s * (n - 1) for s, n in zip(strides, shape)) + 1 + case["tail"]
+    g = torch.Generator().manual_seed(case["data_seed"])
+    buf = torch.randint(0, case["p"], (top, 2, 2), generator=g, dtype=torch.int64)
+    view = torch.as_strided(buf, tuple(shape) + (2, 2), tuple(4 * s for s in strides) + (2, 1), 4 * base)
+    return buf, view
+
+
+def check_mem(ctx: Ctx, case, want_reply=None):
+    """runs the implementation; returns (storage after, returned tensor flattened fibre-major, addresses) or None"""
+    p, left, dim = case["p"], case["left"], case["dim"]
+    buf, view = mem_setup(case)
+    before = buf.clone()
+    mm = lambda a, b: (a @ b) % p
+    ops = (lambda a, b: mm(b, a)) if left else mm
+    d = dim - view.dim() if case.get("negdim") else dim
+    try:
+        y = pp().cumops_(view, d, ops) if case["inplace"] else pp().cumops(view, d, ops)
+    except Exception as e:
+        ctx.fail(case, f"raises: cumops{'_' if case['inplace'] else ''} on a strided view raises: {type(e).__name__}: {str(e)[:120]}")
+        return None
+    want_view = seq_fold(torch.as_strided(before, view.shape, view.stride(), view.storage_offset()), dim, mm, left)
+    if y.shape != want_view.shape or not torch.equal(y, want_view):
+        ctx.fail(case, f"fold: result != sequential fold on a strided view (shape {case['shape']}, strides {case['strides']}, dim {dim}, left={left})")
+    if case["inplace"]:
+        if y.data_ptr() != view.data_ptr() or not torch.equal(view, want_view):
+            ctx.fail(case, "in-place: cumops_ did not overwrite the view it was given with the result")
+        expect = before.clone()
+        torch.as_strided(expect, view.shape, view.stride(), view.storage_offset()).copy_(want_view)
+        if not torch.equal(buf, expect):
+            ctx.fail(case, "in-place: storage outside the view changed (or the view holds something else than the fold)")
+    else:
+        if not torch.equal(buf, before):
+            ctx.fail(case, "mutation: out-of-place cumops changed the storage of its input")
+        if y.untyped_storage().data_ptr() == buf.untyped_storage().data_ptr():
+            ctx.fail(case, "alias: out-of-place cumops returned a tensor that shares storage with its input")
+    # element addresses torch uses for the view, fibre-major
+    idx = torch.arange(buf.shape[0], dtype=torch.int64)
+    addr_view = torch.as_strided(idx, tuple(case["shape"]), tuple(case["strides"]), case["base"])
+    addrs = addr_view.movedim(dim, -1).reshape(-1).tolist()
+    ret = y.movedim(dim, -3).reshape(-1, 4).flatten().tolist()
+    return buf.flatten().tolist(), ret, addrs
+
+
+def mem_lines(case):
+    buf, _ = mem_setup(case)
+    rank = len(case["shape"])
+    head = f"{case['base']} {case['dim']} {rank} " + " ".join(map(str, case["shape"] + case["strides"]))
+    return (f"scan.mem {case['p']} {1 if case['left'] else 0} {1 if case['inplace'] else 0} {head} "
+            + " ".join(map(str, buf.flatten().tolist())), f"scan.addrs {head}")
+
+
+def run_mem(ctx: Ctx, cases):
+    lines, metas = [], []
+    for case in cases:
+        got = check_mem(ctx, case)
+        rank = len(case["shape"])
+        L = case["shape"][case["dim"]]
+        ctx.note_case(("mem", L, rank, case["dim"], case["left"], case["inplace"], tuple(sorted(range(rank), key=lambda d: case["strides"][d]))), L >= 2)
+        ctx.count(f"mem.{'inplace' if case['inplace'] else 'out'}.rank{rank}" + (".expanded" if 0 in case["strides"] else ""))
+        if got is None:
+            continue
+        a, b = mem_lines(case)
+        lines += [a, b]
+        metas.append((case, got))
+    ctx.sample({"stream": "mem", **cases[0]})
+    reps = ctx.driver.run(lines)
+    for k, (case, (store, ret, addrs)) in enumerate(metas):
+        st, toks = common.parse_reply(reps[2 * k])
+        st2, toks2 = common.parse_reply(reps[2 * k + 1])
+        if st2 != "ok" or [int(t) for t in toks2[2:]] != addrs:
+            ctx.disagree("mem", case, f"address map: model mkView != torch as_strided addresses ({st2})")
+            continue
+        if st != "ok":
+            ctx.disagree("mem", case, f"model refuses the case: {toks}")
+            continue
+        vals = [int(t) for t in toks]
+        overlap, vals = vals[0], vals[1:]
+        if overlap != (1 if 0 in case["strides"] and case["shape"][case["strides"].index(0)] > 1 else 0):
+            ctx.disagree("mem", case, "overlap flag: model nonOverlapB disagrees with the generator's construction")
+        want = store if case["inplace"] else store + ret
+        if vals != want:
+            where = next((i // 4 for i, (x, y) in enumerate(zip(vals, want)) if x != y), "length")
+            ctx.disagree("mem", case, f"storage after the call: implementation != model (first differing cell {where}, "
+                                      f"shape {case['shape']}, strides {case['strides']}, dim {case['dim']}, inplace={case['inplace']})")
+
+
 # ----------------------------------------------------------------------------- generation
 
 def pick_L(rng, hi):
@@ -417,6 +539,20 @@ def run(ctx: Ctx):
                       "shape_pre": pre, "shape_post": post, "api": rng.choice(["cumops", "cumops_"]),
                       "data_seed": rng.randrange(1 << 30), "negdim": rng.random() < 0.3, "view": rng.choice(VIEWS)})
     run_mat2(ctx, cases)
+    # mem: whole-storage comparison on random strided views (deterministic corpus first)
+    mcases = []
+    for shape, strides, dim, base in (([5], [1], 0, 0), ([5], [3], 0, 2), ([2, 3], [1, 2], 1, 1), ([2, 3], [1, 2], 0, 0),
+                                     ([3, 4, 2], [2, 12, 1], 1, 3), ([2, 2, 9, 2], [36, 1, 4, 2], 2, 0), ([3, 5], [0, 1], 1, 0),
+                                     ([1], [1], 0, 0), ([4, 1], [1, 7], 0, 0)):
+        for left in (False, True):
+            for inplace in (False, True):
+                if inplace and 0 in strides:
+                    continue
+                mcases.append({"kind": "mem", "p": 251, "left": left, "inplace": inplace, "shape": shape, "strides": strides,
+                               "dim": dim, "base": base, "tail": 2, "negdim": False, "data_seed": 3 + len(shape)})
+    for _ in range(ctx.pick(150, 1500)):
+        mcases.append(gen_mem_case(rng, ctx.quick))
+    run_mem(ctx, mcases)
     # plain tensors through every wrapper (deterministic corpus: every api x order x a few lengths/shapes/dtypes)
     pcases = []
     for api in ("cumprod", "cumprod_", "cummul", "cummul_"):
@@ -479,6 +615,8 @@ def replay(ctx: Ctx, case) -> bool:
         check_lie(ctx, c)
     elif kind == "plain":
         check_plain(ctx, c)
+    elif kind == "mem":
+        run_mem(ctx, [c])
     for f in ctx.failures[n0:]:
         print("  fails:", f["what"])
     for d in ctx.disagreements:
